@@ -245,6 +245,23 @@ pub fn run(tier: &str, seed: u64) -> i32 {
         judge,
         |_, rep| rep.label("same_field_rule"),
     );
+    // disjunctions of conjunctions that hold cast comparisons with the constant on either side
+    // (matrix rows with comparison cells), against numbers, numeric strings and booleans
+    gen::drive(
+        &mut report,
+        18,
+        n / 8,
+        crate::checks::c09::matrix_shaped_strategy,
+        |(blocks, vals, negate): &(Vec<(u8, &str, i64, u8, u8)>, Vec<(u8, i64)>, bool)| {
+            let (cond, body, docs) = crate::checks::c09::matrix_shaped(blocks, vals, *negate);
+            let mut c = Case::new("c01.diff");
+            c.rules = vec![format!("detection:\n{body}  condition: {cond}\ntrue_positives: []\ntrue_negatives: []\n")];
+            c.docs = docs;
+            vec![c]
+        },
+        judge,
+        |_, rep| rep.label("disjunction_of_cast_conjunctions"),
+    );
     // wide or-groups (matrix guard at 256 entries, column keys beyond ASCII)
     gen::drive(
         &mut report,
